@@ -1300,6 +1300,56 @@ def corr_rglob_order(ctx):
                               dict(api='rglob-order', fat=ft))
 
 
+def corr_detect(ctx, R):
+    """prep.detect_partitions (with sh.fat_types replaced by a scripted report and the image opening stubbed) against
+    Prep/Detect.v: every report of up to five partitions over {fat, maybefat, notfat}, with and without a boot / root
+    partition given on the command line; plus the statement: boot = first FAT partition, root = first non-FAT one"""
+    import itertools, argparse, logging, contextlib
+    from unittest import mock
+    import nobodd.prep as P
+    names = {0: ['fat12', 'fat16', 'fat32'], 1: ['maybefat'], 2: ['notfat']}
+    class FakeImage:
+        def open(self, mode='rb'):
+            return contextlib.nullcontext(object())
+    cases = []
+    for n in range(0, 6 if ctx.thorough else 5):
+        for kinds in itertools.product((0, 1, 2), repeat=n):
+            cases.append((None, None, kinds))
+    rng = ctx.rng
+    for _ in range(300):
+        n = rng.randint(0, 6)
+        cases.append((rng.choice([None, None, rng.randint(1, 7)]), rng.choice([None, None, rng.randint(1, 7)]), tuple(rng.choice((0, 1, 2)) for _ in range(n))))
+    args = []
+    for boot, root, kinds in cases:
+        nums = sorted(rng.sample(range(1, 12), len(kinds)))
+        args.append(([boot] if boot is not None else [], [root] if root is not None else [], [[a, k] for a, k in zip(nums, kinds)]))
+    model = R.batch('detect', args, chunk=200) if R is not None else [None] * len(args)
+    for (boot, root, kinds), (ab, ar, report), m in zip(cases, args, model):
+        conf = argparse.Namespace(image=FakeImage(), boot_partition=boot, root_partition=root, logger=logging.getLogger('c17-detect'))
+        scripted = [(num, rng.choice(names[k])) for num, k in report]
+        with mock.patch.object(P, 'fat_types', lambda img, s=scripted: iter(s)), mock.patch.object(P, 'DiskImage', lambda f: contextlib.nullcontext(object())):
+            try:
+                P.detect_partitions(conf)
+                got = [conf.boot_partition, conf.root_partition]
+            except ValueError as e:
+                got = 0 if 'boot' in str(e) else 1
+            except Exception as e:          # noqa: BLE001
+                got = type(e).__name__
+        ctx.case(('detect', boot, root, tuple(report and [tuple(x) for x in report])), True, 'detect-partitions')
+        first = lambda k: next((num for num, kk in report if kk == k), None)
+        wb, wr = (boot if boot is not None else first(0)), (root if root is not None else first(2))
+        want = 0 if wb is None else 1 if wr is None else [wb, wr]
+        if got != want:
+            ctx.violation('prep.detect/statement', f'detect_partitions with --boot-partition {boot} --root-partition {root} over the report {scripted}: '
+                          f'{got} (0 = no boot partition, 1 = no root partition); the first FAT partition / first non-FAT partition rule gives {want}',
+                          dict(api='detect', boot=boot, root=root, report=scripted))
+            return
+        if m is not None and m != got:
+            ctx.violation('prep.detect/model-mismatch', f'detect_partitions over {scripted} (given boot {boot}, root {root}) = {got}, the model says {m}',
+                          dict(api='detect', boot=boot, root=root, report=scripted))
+            return
+
+
 def run(ctx, build):
     warnings.simplefilter('ignore')
     import locale
@@ -1321,6 +1371,7 @@ def run(ctx, build):
         corr_board(ctx, R, tmp)
         corr_rewrite(ctx, R)
         corr_rglob_order(ctx)
+        corr_detect(ctx, R)
         oracle_e2e(ctx, R)
         if broken is not None:
             raise broken
